@@ -352,9 +352,6 @@ def check_case(case, rec):
             if any(m in str(e) for m in EXPECTED_ERRORS):
                 rec.cls('chebyshev-domain-error-skipped')
                 return
-            if kind == 'geometric-mtf' and 'is not finite' in str(e):
-                rec.cls('geometric-mtf-with-lost-rays-not-judged')     # histogram of a spot containing lost rays (C11 note)
-                continue
             if 'Polarization must be set' in str(e) and 'fresnel-without-polarization-state' in classes:
                 # the documented rejection: the call must not have touched the lens
                 rec.cls('call-rejected-polarization-not-set')
@@ -368,11 +365,6 @@ def check_case(case, rec):
         except ZeroDivisionError:
             rec.cls(f'{kind}-raised-ZeroDivisionError-not-judged')
             continue
-        except ValueError as e:
-            if kind == 'geometric-mtf' and 'is not finite' in str(e):
-                rec.cls('geometric-mtf-with-lost-rays-not-judged')     # histogram of a spot containing lost rays (C11 note)
-                continue
-            raise
         rec.event('calls')
         rec.cls(f'call-{kind}')
         if getattr(log, 'instance_ok', None) is not None:
